@@ -2,6 +2,8 @@ import Lean.Data.Json
 import GristModel
 import Driver.Treeview
 import Driver.Engine
+import Driver.Lookup
+import Driver.Lenient
 import Driver.Trigger
 import Driver.Upsert
 import Driver.Zone
@@ -44,6 +46,8 @@ def handleStateless (m : String) (j : Json) : Except String Json :=
   | "zone" => handleZone j
   | "upsert" => handleUpsert j
   | "trigger" => handleTrigger j
+  | "lenient" => LenientD.handleLenient j
+  | "lookup" => Grist.Driver.LookupD.handleLookup j
   | _ => throw s!"unknown model {m}"
 
 structure AllState where
